@@ -92,6 +92,15 @@ CLAIMS = {
         text="Grid.tla defines ceil(M/dt)+1, (T-1-i)dt modulo T and floor(start/dt) over rationals and TLC checks the grid invariants for M=(k+f)dt, k=1..60 (thorough ..260 and large), "
              "10 step sizes, 5 fractions; the harness passes the floats a user would type to the real instruments and compares buffer shapes, time_to_maturity(i|None), hedge and payoff shapes.",
         note="Trusted: TLC, torch. time to maturity within 4*eps*(T-1)*dt, exact zero at the end; BrownianStock on all cases, the other 7 primaries on every 11th."),
+    "C14": dict(
+        engine="Grad.tla / TLC -> exact gradient replay + finite differences",
+        technique="TLA+ forward-mode dual-number evaluation of the specified hedging loss (exact rationals) enumerated by TLC; real loss and back-propagated gradient compared exactly; grad-mode protocol; finite differences for non-rational criteria",
+        category=MC, design_ref="DESIGN.md 3 C14",
+        text="Grad.tla differentiates the specification's own loss (features, linear/ReLU model with recurrent prev_hedge, positions, costs, P&L, ES / mean / MSE / OCE criteria) with respect to all "
+             "parameters in exact dual-number arithmetic for every generic lattice market; the real Hedger's loss and torch.autograd gradient must be equal to it component by component in both "
+             "evaluation branches and in train/eval module mode; price()/compute_loss(enable_grad=False) must carry no graph; entropic risk, quadratic CVaR, entropic loss, OCE(exp), MSE are "
+             "compared with central differences on the same paths for MLP models, H in {1,2}, costs 0 and positive.",
+        note="Trusted: TLC, torch forward arithmetic. Models of the exact part are integer-weight linear/ReLU; non-generic points excluded; finite differences at relative 2e-4."),
     "C15": dict(
         engine="Fit.tla + FitTrace.tla / TLC -> trace validation + reference loop",
         technique="TLA+ protocol automaton of fit() model-checked for every configuration; real fit() runs with recording doubles validated event by event by TLC (FitTrace.tla); final parameters/history compared with an explicit reference loop",
